@@ -552,20 +552,11 @@ class PWLCalibration(keras.layers.Layer):
     Returns:
       List of assertion ops in graph mode or immediately asserts in eager mode.
     """
-    # Assert by computing outputs for keypoints and testing them against
-    # constraints.
-    test_inputs = tf.constant(
-        value=self.input_keypoints,
-        dtype=self.dtype,
-        shape=[len(self.input_keypoints), 1])
-    if self.input_keypoints_type == "learned_interior":
-      # Learned keypoints move away from the initial 'input_keypoints': the
-      # function has to be judged at its current nodes.
-      outputs = self.keypoints_outputs()
-    elif self.impute_missing and self.missing_input_value is None:
-      outputs = self.call([test_inputs, tf.zeros_like(test_inputs)])
-    else:
-      outputs = self.call(test_inputs)
+    # Assert by testing the outputs at the keypoints against constraints. The
+    # function passes through these nodes for fixed as well as for learned
+    # keypoints. (Evaluating 'call' at the keypoints instead would return
+    # 'missing_output' at a keypoint equal to 'missing_input_value'.)
+    outputs = self.keypoints_outputs()
 
     asserts = pwl_calibration_lib.assert_constraints(
         outputs=outputs,
